@@ -490,7 +490,8 @@ func cmdCheck(args []string) int {
 			"integer_model":            "Go integers as SMT Int with machine ranges; each + - * carries a no-overflow obligation unless the contract says `arith math` (listed under assumptions); conversions use exact modular semantics",
 		},
 	}
-	if !*noEvidence {
+	// a run restricted with -only covers part of the property: it must never stand as the property's evidence
+	if !*noEvidence && *only == "" {
 		os.MkdirAll(filepath.Join(*verif, "evidence"), 0o755)
 		data, _ := json.MarshalIndent(ev, "", " ")
 		if err := os.WriteFile(filepath.Join(*verif, "evidence", *prop+".json"), data, 0o644); err != nil {
